@@ -127,6 +127,10 @@ pub fn run(ctx: &Ctx) -> Result<Evidence, String> {
         }
         docs.push(J::Obj(members));
     }
+    // long names that are plain except for one or two special characters (see gen::sparse_long_names)
+    for chunk in gen::sparse_long_names(&mut rng).chunks(16) {
+        docs.push(J::Obj(chunk.iter().enumerate().map(|(k, n)| (n.clone(), if k % 2 == 0 { J::Arr(vec![J::int(k as i64), J::Null]) } else { J::Obj(vec![(n.clone(), J::int(k as i64))]) })).collect()));
+    }
     // documents deeper than any parser limit (built, not parsed): every location must still be
     // addressable through its Normalized Path
     for depth in [60usize, 100, 126, 127, 128, 129, 130, 200, 255, 256, 257, 300, 700] {
